@@ -5,6 +5,10 @@
 //!                                            must still serve well-behaved library clients
 //!   reg stall <n>                            a subscriber on topic A that never reads, > 1.25 MB published to A,
 //!                                            n further registrations on A; then a pub/sub round trip on topic B
+//!   reg big <RP|RQ> <L>                      a raw publisher / requestor sends one Message frame whose payload length
+//!                                            (`Frame::get_length`) is L, then a small one; a library subscriber /
+//!                                            replier is attached. Frames up to the limit must pass; a request that
+//!                                            outgrows the limit once the router tags it is dropped, nothing else
 //! Frames use the notation of wire.rs (`RP ns topic ret ops`, `M headers msg`, `OK`, …), `_` for spaces inside.
 //! Implementation line: the answer(s) (`Ok`, `Error<code>`, `closed`, `timeout`) and `probe=<ok|FAILED …>`.
 use crate::e2e::*;
@@ -102,7 +106,17 @@ async fn run_case(addr: SocketAddr, certs: &Certs, t: &[&str]) -> anyhow::Result
             let conn = raw(addr, certs).await?;
             let mut s = raw_stream(&conn).await?;
             s.send(f.clone()).await?;
-            let a = answer(&mut s).await;
+            let mut a = answer(&mut s).await;
+            if a.starts_with("Error") {
+                // a refusal is final: the stream carries nothing further and is closed
+                let then = match tokio::time::timeout(Duration::from_millis(700), s.next()).await {
+                    Err(_) => "open".to_string(),
+                    Ok(None) | Ok(Some(Err(_))) => "closed".to_string(),
+                    Ok(Some(Ok(Frame::Ok))) => "Ok".to_string(),
+                    Ok(Some(Ok(f))) => format!("frame:{}", crate::wire::frame_text(&f, true).split(' ').next().unwrap_or("?")),
+                };
+                a = format!("{a} then={then}");
+            }
             // the raw peer leaves again
             drop(s);
             conn.close(0u32.into(), b"done");
@@ -171,6 +185,54 @@ async fn run_case(addr: SocketAddr, certs: &Certs, t: &[&str]) -> anyhow::Result
             let probe = if is_pubsub { probe_pubsub(addr, certs, &ns, &tp).await } else { probe_reqrep(addr, certs, &ns, &tp).await };
             Ok(format!("{a} probe={probe}"))
         }
+        "big" => {
+            let l: usize = t[3].parse()?;
+            let (ns, tp) = fresh();
+            let topic = format!("/{ns}/{tp}");
+            let client = client(addr, certs, BackoffStrategy::constant().with_max_attempts(0)).await?;
+            let conn = raw(addr, certs).await?;
+            let big = Frame::Message(MessagePayload { headers: None, message: bytes::Bytes::from(vec![b'x'; l.saturating_sub(9)]) });
+            let small = |m: &str| Frame::Message(MessagePayload { headers: None, message: bytes::Bytes::from(m.as_bytes().to_vec()) });
+            if t[2] == "RP" {
+                let mut sub = client.subscriber(&topic).with_decoder(selium::std::codecs::BytesCodec).open().await?;
+                tokio::time::sleep(Duration::from_millis(60)).await;
+                let mut s = raw_stream(&conn).await?;
+                s.send(reg_frame("RP", &ns, &tp)).await?;
+                let a = answer(&mut s).await;
+                let sent = s.send(big).await.is_ok();
+                let _ = s.send(small("after")).await;
+                let mut got = vec![];
+                for _ in 0..(if sent { 2 } else { 1 }) {
+                    match tokio::time::timeout(Duration::from_millis(2500), sub.next()).await { Ok(Some(Ok(b))) => got.push(b.len().to_string()), _ => break }
+                }
+                drop(s); drop(sub);
+                let probe = probe_pubsub(addr, certs, &ns, &tp).await;
+                Ok(format!("{a} {} got={} probe={probe}", if sent { "sent" } else { "refused" }, got.join(",")))
+            } else {
+                let c2 = client.clone(); let t2 = topic.clone();
+                let rep = tokio::spawn(async move {
+                    let mut replier = c2.replier(&t2).with_request_decoder(selium::std::codecs::BytesCodec).with_reply_encoder(StringCodec)
+                        .with_handler(|req: Vec<u8>| async move { Ok::<_, anyhow::Error>(format!("len{}", req.len())) }).open().await?;
+                    replier.listen().await
+                });
+                tokio::time::sleep(Duration::from_millis(100)).await;
+                let mut s = raw_stream(&conn).await?;
+                s.send(reg_frame("RQ", &ns, &tp)).await?;
+                let a = answer(&mut s).await;
+                let sent = s.send(big).await.is_ok();
+                let mut reply = "no".to_string();
+                if sent {
+                    if let Ok(Some(Ok(Frame::Message(m)))) = tokio::time::timeout(Duration::from_millis(2500), s.next()).await { reply = String::from_utf8_lossy(&m.message).to_string(); }
+                }
+                let _ = s.send(small("after")).await;
+                let after = match tokio::time::timeout(Duration::from_millis(2500), s.next()).await { Ok(Some(Ok(Frame::Message(m)))) => String::from_utf8_lossy(&m.message).to_string(), _ => "no".into() };
+                drop(s);
+                rep.abort();
+                tokio::time::sleep(Duration::from_millis(60)).await;
+                let probe = probe_reqrep(addr, certs, &ns, &tp).await;
+                Ok(format!("{a} {} reply={reply} after={after} probe={probe}", if sent { "sent" } else { "refused" }))
+            }
+        }
         "stall" => {
             let n: usize = t[2].parse()?;
             let (ns, tp) = fresh();
@@ -236,6 +298,9 @@ pub fn run(cfg: &Cfg) {
             cases.push(format!("reg abuse RQ {frames}"));
         }
         cases.push("reg abuse RQ M~636964:39~68;M~none~68".into());
+        let max = (1usize << 20) /* the property's 1 MiB */;
+        for l in [max - 20, max - 9, max - 8, max - 1, max, max + 1] { cases.push(format!("reg big RP {l}")); }
+        for l in [max - 100, max - 28, max - 27, max - 9, max, max + 1] { cases.push(format!("reg big RQ {l}")); }
         cases.push("reg stall 130".into());
     }
     let mut dead = false;
@@ -261,6 +326,13 @@ pub fn run(cfg: &Cfg) {
                     for a in &answers {
                         if *a == "timeout" { m = Err(format!("C11: a stream was neither served nor refused nor closed: {line}")); }
                     }
+                    if t[1] == "big" {
+                        let l: usize = t[3].parse().unwrap();
+                        let max = (1usize << 20) /* the property's 1 MiB */;
+                        if l <= max && !line.contains(" sent ") { m = Err(format!("C05/C11: a frame of payload length {l} <= limit was refused by the encoder: {line}")); }
+                        if t[2] == "RP" && l <= max && !line.contains(&format!("got={},5 ", l - 9)) { m = Err(format!("C11/C03: a publisher's frame within the limit (payload length {l}) did not reach the subscriber, or took the following message with it: {line}")); }
+                        if t[2] == "RQ" && !line.contains("after=len5") { m = Err(format!("C11: after a request of payload length {l} the next request on the same stream was not answered: {line}")); }
+                    }
                     if t[1] == "mismatch" {
                         let same_pattern = (t[2] == "RP" || t[2] == "RS") == (t[3] == "RP" || t[3] == "RS");
                         if !same_pattern && answers.get(1) == Some(&"Ok") { m = Err(format!("C11: a {} registration on a topic of the other messaging pattern was answered Ok (accepted, then abandoned): {line}", t[3])); }
@@ -274,8 +346,12 @@ pub fn run(cfg: &Cfg) {
                             Some(tn) => {
                                 let pubsub = matches!(f, Frame::RegisterPublisher(_) | Frame::RegisterSubscriber(_));
                                 let first = *pattern.entry(tn.to_string()).or_insert(pubsub);
-                                let want = if !tn.is_valid() { "Error4" } else if first == pubsub { "Ok" } else { "Error7" };
-                                if answers[0] != want { m = Err(format!("C07/C11: registration with name valid={} answered {}", tn.is_valid(), answers[0])); }
+                                // the grammar as the property states it (independent of the repository's own `is_valid`,
+                                // which is only consulted for non-ASCII characters whose Unicode class decides)
+                                let valid = crate::topic::oracle(&format!("/{}/{}", tn.namespace(), tn.topic())).unwrap_or_else(|| tn.is_valid());
+                                let want = if !valid { "Error4" } else if first == pubsub { "Ok" } else { "Error7" };
+                                if answers[0] != want { m = Err(format!("C07/C11: registration with name valid={valid} answered {}", answers[0])); }
+                                if answers[0].starts_with("Error") && answers.get(1) != Some(&"then=closed") { m = Err(format!("C07/C11: a refused registration was not final (the stream stayed open or was served afterwards): {line}")); }
                             }
                             None => if answers[0] == "Ok" { m = Err("C11: a non-registration first frame was answered Ok".into()); },
                         }
